@@ -88,6 +88,16 @@ func c01Forms() []c01Form {
 			sub := db.Raw("SELECT id FROM u WHERE v = ? AND w > ?", y, z)
 			return find(db.Table("t").Where("a < ?", x).Where("id IN (?)", sub).Where("c = ?", x)), []interface{}{x, y, z, x}
 		}},
+		{"subquery-raw-twelve-values", func(db *gorm.DB, x, y, z int) (*gorm.Statement, []interface{}) {
+			// more than nine values inside the sub-query: "$1" is a prefix of "$10".."$12"
+			in := []int{x, y, z, x, y, z, x, y, z, x}
+			sub := db.Raw("SELECT id FROM u WHERE v IN ? AND w > ? AND q <> ?", in, y, z)
+			want := []interface{}{z}
+			for _, v := range in {
+				want = append(want, v)
+			}
+			return find(db.Table("t").Where("a < ?", z).Where("id IN (?)", sub).Where("c = ?", x)), append(want, y, z, x)
+		}},
 		{"subquery-in-table", func(db *gorm.DB, x, y, z int) (*gorm.Statement, []interface{}) {
 			sub := db.Table("u").Select("id").Where("v = ?", y)
 			return find(db.Table("(?) as s", sub).Where("s.id > ?", x)), []interface{}{y, x}
